@@ -236,7 +236,7 @@ class Reset(Contract):
             i = Lp.i
             return [("cleared-so-far", ForAll(lambda k: eq(attr_now(c, item(folders, k), "decompressor"), None), guard=lambda k: And(k >= 0, k < i), n=i))]
 
-        return {"py7zr:SevenZipFile.reset#loop0": LoopSpec("for-i-folder", inv)  # the invariant mentions no local variable: no text anchor needed}
+        return {"py7zr:SevenZipFile.reset#loop0": LoopSpec("for-i-folder", inv)}  # the invariant mentions no local variable: no text anchor needed
 
 
 @contract
